@@ -1,4 +1,5 @@
 import pv
+READY = True
 
 SPEC = {
     "targets": ["Properties/C07.vo", "Run/C07.vo"],
